@@ -690,6 +690,45 @@ example : fStringP partTextGen 2
     (by simp [spell, Item.spelling]) (by simp [spell, Item.spelling]) (by decide) (by simp)
   simpa [spell, meaning, Item.spelling, Item.value] using this
 
+/-- T4e (`fstring_parts_lexed_and_decoded`). ANY number of holes: for EVERY
+    f-string `text {hole} text {hole} … text"` whose texts are non-empty
+    sequences of plain Unicode characters, documented escapes, `{{` and `}}`
+    and whose holes' sources are non-empty, do not begin with `{` and contain
+    no `}`, the model of `Lexer::f_string_part` cuts exactly before every hole
+    and at the closing quote, and the brace pass run on the GENERATED decisions
+    gives every text its documented meaning (by induction over the segments).
+    (Empty texts — a leading hole, adjacent holes — take the model's
+    `raw.isEmpty` branch and are covered by the correspondence run.) -/
+theorem fstring_parts_lexed_and_decoded (segs : List (List Item × List Char)) (last : List Item)
+    (rest : List Char) (fuel : Nat)
+    (hseg : ∀ s ∈ segs, (∀ it ∈ s.1, it.ok) ∧ (∀ it ∈ s.1, it.lexOk) ∧ spell s.1 ≠ [] ∧ HoleOk s.2)
+    (hok : ∀ it ∈ last, it.ok) (hl : ∀ it ∈ last, it.lexOk) (hnl : spell last ≠ []) :
+    fStringP partTextGen (segs.length + 1 + fuel) (renderSegs segs last rest) = some (partsOf segs last) :=
+  fStringP_segs partTextGen segs last rest fuel
+    (fun s hs => ⟨(hseg s hs).2.1, (hseg s hs).2.2.1, fstring_text_generated s.1 (hseg s hs).1, (hseg s hs).2.2.2⟩)
+    hl hnl (fstring_text_generated last hok)
+
+/-- non-vacuity: `f"a{x}{{{y}}}"` is such an f-string (two holes) -/
+example : fStringP partTextGen 3 (renderSegs [([.plain 'a'], ['x']), ([.lbrace], ['y'])] [.rbrace] []) =
+    some [.text ['a'], .hole ['x'], .text ['{'], .hole ['y'], .text ['}']] := by
+  have := fstring_parts_lexed_and_decoded [([.plain 'a'], ['x']), ([.lbrace], ['y'])] [.rbrace] [] 0
+    (by
+      intro s hs
+      simp only [List.mem_cons, List.not_mem_nil, or_false] at hs
+      rcases hs with rfl | rfl
+      · refine ⟨?_, ?_, by simp [spell, Item.spelling], ⟨⟨'x', [], rfl, by decide⟩, by simp⟩⟩
+        · intro it hit; simp only [List.mem_cons, List.not_mem_nil, or_false] at hit; subst hit
+          exact ⟨by decide, by decide, by decide⟩
+        · intro it hit; simp only [List.mem_cons, List.not_mem_nil, or_false] at hit; subst hit
+          show special 'a' = false; decide
+      · refine ⟨?_, ?_, by simp [spell, Item.spelling], ⟨⟨'y', [], rfl, by decide⟩, by simp⟩⟩
+        · intro it hit; simp only [List.mem_cons, List.not_mem_nil, or_false] at hit; subst hit; trivial
+        · intro it hit; simp only [List.mem_cons, List.not_mem_nil, or_false] at hit; subst hit; trivial)
+    (by intro it hit; simp only [List.mem_cons, List.not_mem_nil, or_false] at hit; subst hit; trivial)
+    (by intro it hit; simp only [List.mem_cons, List.not_mem_nil, or_false] at hit; subst hit; trivial)
+    (by simp [spell, Item.spelling])
+  simpa [partsOf, meaning, Item.value] using this
+
 /-- T6b (`fstring_scanner_starts_at_text`). When the parser takes `f"` from a
     mode-safe lexer the queue is empty afterwards, so `f_string_part` — which
     reads the raw input — starts exactly at the f-string's text. The initial
